@@ -1,3 +1,2 @@
 import PieModel.Props.C08
-open PieModel
-#print axioms C08_placeholder
+#print axioms PieModel.C08_placeholder
